@@ -130,6 +130,10 @@ class Runner:
         env.pop("VERIF_READDIR", None)
         env.pop("VERIF_SHORTWRITE", None)
         env.pop("VERIF_DISKFULL", None)
+        env.pop("VERIF_SHORTWRITEV", None)
+        if shortwrite and shortwrite.startswith("v"):
+            env["VERIF_SHORTWRITEV"] = shortwrite[1:]
+            shortwrite = None
         if shortwrite:
             env["VERIF_SHORTWRITE"] = shortwrite
         if diskfull:
@@ -446,6 +450,14 @@ def run_c10(prop, tier):
                             jobs.append((sc, mode, i, s, "short:%d" % how, None))
                         for how in (1, 2):
                             jobs.append((sc, mode, i, s, "full:%d" % how, None))
+                # a vectored write cut at any byte (in the driver: the tracer can only drop whole segments); none in today's runtime
+                nv = 0
+                for i, s in enumerate(seq):
+                    if s["sc"] == "writev" and not s["args"].startswith(("2,", "-1,")):
+                        nv += 1
+                        for how in (1, 2, 3, 5, 13, 17, 40):
+                            jobs.append((sc, mode, i, s, "SHORTv%d:%d" % (nv, how), None))
+
         def one(j):
             sc, mode, i, s, e, pre = j
             tag = "f%d" % os.getpid()
